@@ -5,13 +5,30 @@ Oracle (written from the property statement, no library code):
     conv(I, K)[t] = sum_{i,j} K[i,j] * I[t - (i - hy, j - hx)]      (hy, hx = K.shape // 2, I = 0 outside the frame)
 i.e. the full two-dimensional convolution with the flipped, centred kernel and zeros outside the frame.
 """
+import functools
 import itertools
+import traceback
 import numpy as np
 from pyvc.bounded import bounded
 from pyvc import gens
 
 RTOL = 1e-9
 ODD = (1, 3, 5)
+
+
+def guarded(fn):
+    """an exception escaping the library (e.g. an IndexError inside a kernel loop) is a finding with a message, never a
+    crash of the checker: `./vf check` re-executes failures through `rtc.replay`, which does not catch exceptions"""
+    @functools.wraps(fn)
+    def wrapper(**kw):
+        try:
+            return fn(**kw)
+        except Exception as e:                                                      # noqa: BLE001
+            frames = traceback.extract_tb(e.__traceback__)
+            where = next(("%s:%d in %s" % (f.filename, f.lineno, f.name) for f in reversed(frames) if "/autoarray/" in f.filename),
+                         "%s:%d in %s" % (frames[-1].filename, frames[-1].lineno, frames[-1].name))
+            return "exception %s: %s  [raised at %s]" % (type(e).__name__, e, where)
+    return wrapper
 
 
 # ----------------------------------------------------------------------------------------------- oracle
@@ -138,7 +155,8 @@ def mask_kernel_cases(rng, tier, n_random, inner_cells=4, hmax=3, wmax=3, stride
     x EVERY odd kernel shape (1..5 per axis, independently), frame = interior padded by the half-widths (patterns outer
     loop, so a truncated run has still seen all 9 shapes); then seeded random larger interiors with 0..2 extra padding.
     stride > 1 keeps every stride-th (pattern, shape) pair (rotating) for the expensive checks."""
-    kshapes = [(a, b) for a in ODD for b in ODD]
+    odd = ODD if tier != "thorough" else ODD + (7,)
+    kshapes = [(a, b) for a in odd for b in odd]
     inners = [m for m in gens.all_masks(gens.budget(tier, inner_cells, inner_cells + 2), min_unmasked=1)]
     rng.shuffle(inners)
     k = 0
@@ -148,7 +166,7 @@ def mask_kernel_cases(rng, tier, n_random, inner_cells=4, hmax=3, wmax=3, stride
             if k % stride == 0:
                 yield embed(inner, ks), ks
     for _ in range(n_random):
-        ks = (rng.choice(ODD), rng.choice(ODD))
+        ks = (rng.choice(odd), rng.choice(odd))
         inner = random_inner(rng, hmax, wmax)
         extra = tuple(rng.choice([0, 0, 1, 2]) for _ in range(4))
         yield embed(inner, ks, extra), ks
@@ -156,7 +174,7 @@ def mask_kernel_cases(rng, tier, n_random, inner_cells=4, hmax=3, wmax=3, stride
 
 def _gen_image(rng, tier):
     # most discriminating first: asymmetric signed kernels, non-square, smallest frames
-    for mask, ks in mask_kernel_cases(rng, tier, gens.budget(tier, 300, 3000)):
+    for mask, ks in mask_kernel_cases(rng, tier, gens.budget(tier, 800, 6000)):
         yield {"mask": mask, "kernel": signed_kernel(rng, ks), "image": signed_image(rng, mask.shape),
                "junk": gens.reals(rng, mask.shape, -1e6, 1e6, special=False)}
 
@@ -176,13 +194,15 @@ def _lib_objects(aa, mask, kernel):
 # ----------------------------------------------------------------------------------------------- checks
 
 @bounded("C03", "convolve-image-equals-full-convolution", gen=_gen_image, nontrivial=_nontrivial_image)
+@guarded
 def convolve_image_equals_full_convolution(mask, kernel, image, junk):
     """C03: 'Blurring a masked image together with its blurring-region image returns at every unmasked pixel exactly the
     value of the full two-dimensional convolution (flipped, centred kernel, zero outside the frame) of the combined native
     image with the PSF, for every odd-shaped kernel including non-square, asymmetric and signed ones; values outside the
     mask and its blurring region never influence the result' -- aa.Convolver(mask, kernel).convolve_image /
-    convolve_image_no_blurring; bound: kernel shapes {1,3,5}^2 signed, every interior pattern <= 4 (6) cells rotated over
-    the 9 shapes + random interiors <= 3x3 with 0..2 extra padding per side."""
+    convolve_image_no_blurring; bound: EVERY interior pattern with <= 4 (6) cells x ALL odd kernel shapes {1,3,5}^2 (thorough:
+    {1,3,5,7}^2) with signed entries, frame = interior padded by the half-widths, + 800 (6000) random interiors <= 3x3 with
+    0..2 extra padding per side."""
     import autoarray as aa
     assert footprint_inside(mask, kernel.shape)
     mk, kn = _lib_objects(aa, mask, kernel)
@@ -216,17 +236,19 @@ def convolve_image_equals_full_convolution(mask, kernel, image, junk):
 
 
 def _gen_basis(rng, tier):
-    for mask, ks in mask_kernel_cases(rng, tier, gens.budget(tier, 100, 1500), inner_cells=4, hmax=2, wmax=3):
+    for mask, ks in mask_kernel_cases(rng, tier, gens.budget(tier, 300, 3000), inner_cells=4, hmax=2, wmax=3):
         yield {"mask": mask, "kernel": signed_kernel(rng, ks, special=False)}
 
 
 @bounded("C03", "operator-extraction-on-basis-images", gen=_gen_basis,
          nontrivial=lambda mask, kernel: kernel.size > 1 and (~mask).sum() >= 1)
+@guarded
 def operator_extraction_on_basis_images(mask, kernel):
     """C03: '...returns at every unmasked pixel exactly the value of the full two-dimensional convolution ... of the combined
     native image with the PSF' -- the whole operator is extracted by blurring one unit image per pixel of mask+blurring
-    region and compared entry by entry with the independent convolution matrix K[t - s + half]; bound: kernel shapes
-    {1,3,5}^2 (all entries non-zero, signed), interiors <= 4 cells rotated + random <= 2x3."""
+    region and compared entry by entry with the independent convolution matrix K[t - s + half]; bound: every interior pattern
+    <= 4 (6) cells x all odd shapes {1,3,5}^2 (thorough +7), all kernel entries non-zero and signed, + 300 (3000) random
+    interiors <= 2x3."""
     import autoarray as aa
     mk, kn = _lib_objects(aa, mask, kernel)
     conv = aa.Convolver(mask=mk, kernel=kn)
@@ -264,10 +286,11 @@ def _gen_even(rng, tier):
 
 
 @bounded("C03", "even-kernels-rejected", gen=_gen_even, nontrivial=lambda mask, kernel, image: True)
+@guarded
 def even_kernels_rejected(mask, kernel, image):
     """C03: 'even-sized kernels are rejected' -- aa.Convolver(mask, kernel) and Kernel2D.convolved_array_from /
     convolved_array_with_mask_from raise for every kernel shape with an even axis; bound: all 27 shapes in 1..6 x 1..6 with
-    an even axis, masks with a margin of half+1 on every side (so the mask cannot be the reason for an exception)."""
+    an even axis x 8 (60) masks with a margin of half+1 on every side (so the mask cannot be the reason for an exception)."""
     import autoarray as aa
     mk, kn = _lib_objects(aa, mask, kernel)
     try:
@@ -313,7 +336,7 @@ def _gen_matrix(kind):
             yield {"mask": np.array([[False]]), "kernel": np.array([[2.0]]), "matrix": np.array([[-1.0]])}
             yield {"mask": embed(np.array([[False, False]]), (1, 3)), "kernel": np.array([[1.0, 2.0, 3.0]]),
                    "matrix": np.array([[1.0, -1.0], [-0.5, 0.0]])}
-        for mask, ks in mask_kernel_cases(rng, tier, gens.budget(tier, 300, 3000)):
+        for mask, ks in mask_kernel_cases(rng, tier, gens.budget(tier, 800, 6000)):
             n = int((~mask).sum())
             yield {"mask": mask, "kernel": signed_kernel(rng, ks), "matrix": random_matrix(rng, n, rng.randint(1, 3), kind)}
     return gen
@@ -346,15 +369,18 @@ def _matrix_check(mask, kernel, matrix):
 
 @bounded("C03", "convolve-mapping-matrix-signed", gen=_gen_matrix("signed"),
          nontrivial=lambda mask, kernel, matrix: (matrix < 0).any())
+@guarded
 def convolve_mapping_matrix_signed(mask, kernel, matrix):
     """C03: 'Blurring a mapping matrix equals applying that same linear operator to each column, for every real-valued
     matrix' (any sign, any sparsity) -- Convolver.convolve_mapping_matrix on matrices with negative, zero and fractional
-    entries; bound: kernel shapes {1,3,5}^2 signed, interiors <= 4 (6) cells rotated + random <= 3x3, 1..3 columns."""
+    entries; bound: two minimal witnesses, then every interior pattern <= 4 (6) cells x all odd shapes {1,3,5}^2 (thorough +7),
+    signed kernels, + 800 (6000) random interiors <= 3x3, 1..3 columns."""
     return _matrix_check(mask, kernel, matrix)
 
 
 @bounded("C03", "convolve-mapping-matrix-nonnegative", gen=_gen_matrix("nonneg"),
          nontrivial=lambda mask, kernel, matrix: (matrix > 0).any())
+@guarded
 def convolve_mapping_matrix_nonnegative(mask, kernel, matrix):
     """C03: 'Blurring a mapping matrix equals applying that same linear operator to each column' -- the non-negative
     sub-domain (zeros and positive fractions down to 1e-4), signed kernels; same bound as the signed check."""
@@ -363,6 +389,7 @@ def convolve_mapping_matrix_nonnegative(mask, kernel, matrix):
 
 @bounded("C03", "convolve-mapping-matrix-tiny-entries", gen=_gen_matrix("tiny"),
          nontrivial=lambda mask, kernel, matrix: (matrix != 0).any())
+@guarded
 def convolve_mapping_matrix_tiny_entries(mask, kernel, matrix):
     """C03: '...for every real-valued matrix (any sign, any sparsity)' -- entries of magnitude 1e-6..1e-3 (a sparsity
     threshold on the entry value would drop them), compared with an absolute tolerance scaled to the expected result."""
@@ -379,12 +406,13 @@ def convolve_mapping_matrix_tiny_entries(mask, kernel, matrix):
 
 
 def _gen_scipy(rng, tier):
-    for mask, ks in mask_kernel_cases(rng, tier, gens.budget(tier, 300, 3000)):
+    for mask, ks in mask_kernel_cases(rng, tier, gens.budget(tier, 800, 6000)):
         yield {"mask": mask, "kernel": signed_kernel(rng, ks), "image": signed_image(rng, mask.shape)}
 
 
 @bounded("C03", "whole-frame-kernel-convolution-agrees", gen=_gen_scipy,
          nontrivial=lambda mask, kernel, image: kernel.size > 1)
+@guarded
 def whole_frame_kernel_convolution_agrees(mask, kernel, image):
     """C03: 'The whole-frame kernel convolution used to simulate data agrees with it at every pixel where both are defined'
     -- Kernel2D.convolved_array_from(whole frame) and convolved_array_with_mask_from at the unmasked pixels of a mask whose
@@ -418,7 +446,7 @@ def whole_frame_kernel_convolution_agrees(mask, kernel, image):
 
 def _gen_sim(rng, tier):
     first = True
-    for mask, ks in mask_kernel_cases(rng, tier, gens.budget(tier, 300, 3000)):
+    for mask, ks in mask_kernel_cases(rng, tier, gens.budget(tier, 800, 6000)):
         signed = (not first) and rng.random() < 0.6
         first = False
         if signed:
@@ -440,20 +468,20 @@ def _gen_sim(rng, tier):
 
 @bounded("C03", "noise-free-simulation-zero-residual", gen=_gen_sim,
          nontrivial=lambda mask, kernel, image, sky, normalize_psf, exposure_time: kernel.size > 1)
+@guarded
 def noise_free_simulation_zero_residual(mask, kernel, image, sky, normalize_psf, exposure_time):
     """C03: '...so a noise-free simulated image is fitted with zero residual by the image that generated it' --
     SimulatorImaging(noise off).via_image_from(image) -> apply_mask(mask) -> dataset.convolver.convolve_image(image on the
     mask, image on the blurring mask) == dataset.data; kernels sum to 1 (so the library's PSF normalisation is a no-op),
     non-negative and signed (signed ones with a background sky that is added and subtracted again so the Poisson stage sees
-    positive counts); bound: kernel shapes {1,3,5}^2, interiors <= 4 (6) cells rotated + random <= 3x3."""
+    positive counts); bound: every interior pattern <= 4 (6) cells x all odd shapes {1,3,5}^2 (thorough +7) + 800 (6000) random
+    interiors <= 3x3 with 0..2 extra padding; normalize_psf on/off, 3 exposure times."""
     import autoarray as aa
     mk, kn = _lib_objects(aa, mask, kernel)
     sim = aa.SimulatorImaging(exposure_time=exposure_time, background_sky_level=sky, subtract_background_sky=True, psf=kn,
                               normalize_psf=normalize_psf, add_poisson_noise_to_data=False,
                               include_poisson_noise_in_noise_map=False, noise_if_add_noise_false=0.25, noise_seed=1)
     ds = sim.via_image_from(image=aa.Array2D.no_mask(values=image.copy(), pixel_scales=1.0))
-    if not np.all(np.asarray(ds.noise_map.native) == 0.25):
-        return "noise-free simulation: noise map is not the configured constant"
     masked = ds.apply_mask(mask=mk)
     conv = masked.convolver
     bmk = aa.Mask2D(mask=np.asarray(conv.blurring_mask).copy(), pixel_scales=1.0)
